@@ -9,8 +9,8 @@ open Acra.Gen.ExtraH264 Acra.Gen.ExtraADTS Acra.Gen.ExtraSEI Acra.Gen.ExtraPA Ac
     of the listed ordinary exceptions. -/
 
 /-- the signed-time part of `STANAG4609_SEI.unpack`: a value or the `ValueError` of `datetime.fromtimestamp` -/
-theorem SEI_signed_total (t : SEI) (p q a b c d e f g h i j : Nat) :
-    (SEI.signed t p q a b c d e f g h i j).2 = .ok () ∨ (SEI.signed t p q a b c d e f g h i j).2 = .error .value := by
+theorem SEI_signed_total (p q a b c d e f g h i j : Nat) :
+    (SEI.signed p q a b c d e f g h i j).2 = .ok () ∨ (SEI.signed p q a b c d e f g h i j).2 = .error .value := by
   unfold SEI.signed
   split
   · split
@@ -28,7 +28,7 @@ theorem SEI_unpack_total (t : SEI) (buf : Bytes) :
   · split
     · split
       · rename_i e h; have := structUnpackFrom_error _ _ _ _ h; subst this; simp
-      · rcases SEI_signed_total t _ _ _ _ _ _ _ _ _ _ _ _ with h | h
+      · rcases SEI_signed_total _ _ _ _ _ _ _ _ _ _ _ _ with h | h
         · left; exact h
         · right; right; exact h
     · simp
@@ -104,9 +104,10 @@ theorem H264_unpack_total (t : H264) (buf : Bytes) :
   | none => simp
   | some n => by_cases h : n < 4 <;> simp [h]
 
-/-- a buffer of four or more characters is never decoded: the decoder cannot produce a single NAL -/
-theorem H264_unpack_never_decodes (t : H264) (buf : Bytes) : (H264.unpack t buf).1 = t := by
-  simp only [H264.unpack]
+/-- no buffer is ever decoded into a NAL: whatever the object held, it holds the empty list afterwards
+    (`self.nals = []` is the first statement, and the loop over the offsets never runs) -/
+theorem H264_unpack_never_decodes (t : H264) (buf : Bytes) : (H264.unpack t buf).1 = H264.fresh := by
+  simp only [H264.unpack, H264.fresh]
   repeat' split
   all_goals rfl
 
